@@ -27,7 +27,8 @@ ASSUMPTIONS = ["network, clock, executor are simulated (sim/); Cluster, Session,
                "the reference is 'first level that has a value wins': statement, then PreparedStatement (bound statements), "
                "then the profile in effect / legacy session attribute, then the documented default",
                "a serial consistency on protocol v1 and a BatchStatement on v1 are rejected by the driver (documented) and "
-               "not generated"]
+               "not generated; a BatchStatement with a serial consistency in effect on v2 must be rejected with "
+               "UnsupportedOperation (the v2 BATCH frame cannot carry it)"]
 
 CL_CODE = {"ANY": 0, "ONE": 1, "TWO": 2, "THREE": 3, "QUORUM": 4, "ALL": 5, "LOCAL_QUORUM": 6, "EACH_QUORUM": 7,
            "SERIAL": 8, "LOCAL_SERIAL": 9, "LOCAL_ONE": 10}
@@ -260,6 +261,22 @@ def _run(case, ctx, sim):
             r["op"] in ("EXECUTE", "BATCH") or (r["op"] == "QUERY" and r.get("query", "").startswith("SELECT k")))]
     sent = mine()
     feat = [kind, "v%d" % pv, mode if mode == "legacy" else use]
+    if kind == "batch" and pv == 2 and eff["serial"] is not None:
+        # a v2 BATCH frame cannot carry a serial consistency: the documented behaviour is a rejection
+        # (UnsupportedOperation), never a frame that silently lacks the value in effect
+        from cassandra import UnsupportedOperation
+        errs = getattr(fut._final_exception, "errors", None) or {}
+        rejected = isinstance(fut._final_exception, UnsupportedOperation) or (
+            isinstance(errs, dict) and errs and all(isinstance(e, UnsupportedOperation) for e in errs.values()))
+        if sent:
+            ctx.fail(["C46.wire", "serial_consistency", "batch", "v2"],
+                     "request carries serial consistency %r, in effect %r" % (sent[0][2].get("serial_consistency"), eff["serial"]))
+        elif not rejected:
+            ctx.fail(["C46.reject", "batch-serial-v2", "not-UnsupportedOperation"], "future: %r" % (fut._final_exception,))
+        sim.call(cluster.shutdown)
+        ctx.label("rejected:batch-serial-v2", "kind=batch", "v2")
+        ctx.nontrivial(_conflicts(case) >= 1)
+        return
     if not sent:
         ctx.fail(["C46.sent", "nothing"] + feat, "no request reached a server; future: %r" % (fut._final_exception,))
         return
